@@ -241,25 +241,32 @@ def oracle_roundtrip(tab, c, data, res, mode, fcb_supported):
     init_ok = io == 0 or any(s["offset"] == io and s["init"] for s in rows)
     cls = layout_class(tab)
     has_fcb = any(s["name"] in ("fcb", "fcb_xspi") and d and s["offset"] >= io for s, d in zip(rows, data))
-    # input class of the case (most specific cause first); a per-segment length class is used for byte mismatches
-    general = ("later-start-on-dynamic-layout" if (io > 0 and cls == "dynamic-layout") else
-               "fcb-family-without-fcb-description" if (has_fcb and not fcb_supported) else
-               "start-at-non-init-segment" if not init_ok else None)
+    # the signature names the OUTCOME (what went wrong, with which error kind / which start / which bytes) and the input class;
+    # known findings are keyed on the exact defective outcome, never on the input class alone
+    general = "start-at-non-init-segment" if not init_ok else None
+    fill = bytes([tab["fill"]])
+    inits = {s["offset"] for s in rows if s["init"] and s["offset"] >= 0}
     p = res["parses"].get(mode)
     if p is None:
         return None
     if isinstance(p, list):
         suffix = general or ("fixed-size-" + wf if wf != "ok" else "wellformed")
-        return (f"roundtrip:parse-failed:{suffix}:{cls}", f"parse ({mode}) of the merged image failed with {p}")
+        what = "parse-rejected" if p[1] == 1 else f"parse-crashed-kind{p[1]}"          # 1 = SPSDKError, 2 = other exception, 3 = hang
+        return (f"roundtrip:{what}:{suffix}:{cls}", f"parse ({mode}) of the merged image failed with {p}")
     if p["io"] != io:
         suffix = general or ("fixed-size-" + wf if wf != "ok" else "wellformed")
-        return (f"roundtrip:start:{suffix}:{cls}", f"parse ({mode}) located the image start at {p['io']}, it starts at {io}")
+        what = "start-at-later-init-segment" if (p["io"] > io and p["io"] in inits) else "start-elsewhere"
+        return (f"roundtrip:{what}:{suffix}:{cls}", f"parse ({mode}) located the image start at {p['io']}, it starts at {io}")
     for s, d, row in zip(rows, data, p["segs"]):
         want = d if (s["offset"] < 0 or s["offset"] >= io) else b""
         got = uz(row[5]) if isinstance(row[5], str) else None
         if got != want:
-            own = ("fixed-size-short" if len(d) < s["size"] else "fixed-size-long" if len(d) > s["size"] else None) \
-                if (s["name"] in RAW_FIXED and d) else None
+            own = None
+            if s["name"] in RAW_FIXED and d and got is not None:
+                if len(d) < s["size"]:
+                    own = "fixed-size-short-padded" if got == d + fill * (s["size"] - len(d)) else "fixed-size-short-other"
+                elif len(d) > s["size"]:
+                    own = "fixed-size-long-truncated" if got == d[:s["size"]] else "fixed-size-long-other"
             suffix = own or general or "wellformed"
             return (f"roundtrip:segment-bytes:{s['name']}:{suffix}:{cls}",
                     f"parse ({mode}) returned {None if got is None else len(got)} bytes for {s['name']}, supplied {len(want)}"
@@ -642,7 +649,7 @@ def run(tier):
                             {"kind": "impl-oracle", "api": f"BootableImage.parse(export(), family, mem_type, revision) [{mode}]",
                              "case": short(c), "observed": p if isinstance(p, list) else {"io": p["io"], "segs": [x[:5] for x in p["segs"]]}})
     # ---- correspondence with the Coq model
-    ndis = 0
+    ndis = nexcused = 0
     if model_ok:
         try:
             exprs = [model_expr(tables[c["table"]], c, fcbs[(c["family"], c["rev"], c["mem"])]) for c in cases]
@@ -663,9 +670,16 @@ def run(tier):
                     for mode, pv in zip(c["parse"], mv[1][1:]):
                         key = "typed" if mode == "typed" else f"cut{mode[1]}"
                         start = r.get("io", 0) if mode == "typed" else mode[1]
-                        if start not in inits:
-                            continue      # the real MBI/HAB parsers accept arbitrary bytes; the stand-in recognisers do not
-                        pairs.append((key, impl_parse_obs(r, key), model_parse_obs(d, pv)))
+                        a, b = impl_parse_obs(r, key), model_parse_obs(d, pv)
+                        if start not in inits and a != b:
+                            # the real MBI/HAB parsers accept arbitrary bytes, the stand-in recognisers do not: a disagreement
+                            # is excused only when the spec oracle classifies the implementation's ACTUAL outcome as exactly
+                            # the recorded C14-F3 outcome "start located at a later INIT segment"
+                            o = oracle_roundtrip(tab, c, d, r, key, fcbs[(c["family"], c["rev"], c["mem"])])
+                            if o and o[0].startswith("roundtrip:start-at-later-init-segment:start-at-non-init-segment:"):
+                                nexcused += 1
+                                continue
+                        pairs.append((key, a, b))
                 for what, a, b in pairs:
                     if a != b:
                         ndis += 1
@@ -722,6 +736,7 @@ def run(tier):
                      "fill patterns of the database are 'zeros' or 'ones' (the extractor fails closed otherwise)",
                      "a structured segment's own parser accepts its own export and reports its length (C01/C06/C07/C12)"],
         extra_cov={"payloads_unavailable": sorted(why)[:40],
+                   "model_disagreements_excused_as_exact_C14_F3_outcome": nexcused,
                    "scenario_classes": {
                        "floating segment after a predecessor whose length is not a multiple of the floating alignment, both recovered by parse": n_float,
                        "image read from a later init offset and not longer than that offset, segment recovered by parse": n_short}})
